@@ -222,7 +222,7 @@ func C01(r *core.Run) {
 		"(R01.1) the ETag header of PUT/POST is the Sum of the very hashing reader that was handed to PutObject, which wraps the request body; " +
 		"(R01.2) in every PutObject the stored hash and the stored body come from one single consumption of the input: ReadAll(input,size)→md5.Sum(same bytes) (memory, bolt) or one io.Copy(input) into a MultiWriter over exactly {the truncating-created object file, the hasher} whose Sum is stored (fs); " +
 		"(R01.3) Content-Length/Object.Size derive from the stored bytes' length; (R01.4) header-name constants are canonical and the persisted header set covers Content-Type/-Encoding/-Disposition and x-amz-meta-*; " +
-		"(R01.5) GET and HEAD replay every stored metadata header and the ETag through one shared function, before length and body; (R01.6) stored bodies are never mutated; (R01.7) no storage error is dropped. (R01.10) in the memory and bolt backends success is returned only after the new record was written."
+		"(R01.5) GET and HEAD replay every stored metadata header and the ETag through one shared function, before length and body; (R01.6) stored bodies are never mutated; (R01.7) no storage error is dropped. (R01.10) in the memory and bolt backends success is returned only after the new record was written. (R01.12) error discipline in path form: no call's error reaches a return untested / not handed back, and no path that found it non-nil ends in success without passing it on or testing it further."
 	r.NotDecided = "byte equality, empty-body behaviour, URL-escaping of keys, that ReadAll reads exactly size bytes, bolt/BSON and JSON round trips of values"
 	rule011(r)
 	rule012(r)
@@ -238,6 +238,7 @@ func C01(r *core.Run) {
 	rule0210(r, "C01")
 	rule105(r)
 	rule0111(r)
+	rule0112(r, "C01")
 }
 
 func rule011(r *core.Run) {
@@ -1215,4 +1216,216 @@ func rule0111(r *core.Run) {
 	}
 	r.Check(bad == "" && n > 0, "R01.11", key(fname(r, fn), "returned bytes are freshly allocated"), r.P.Pos(fn.Pos()), sprintf("%d returns, none built from the reader's own memory", n),
 		"ReadAll can return bytes obtained from a concrete reader type (type assertion at "+bad+"): the stored body aliases memory the caller still owns")
+}
+
+// rule0112 — error discipline in path form: no path carries an error past the
+// point where the caller is told "done" without it having been looked at, and
+// no path that saw it non-nil ends in success without doing something about it.
+func rule0112(r *core.Run, prop string) {
+	r.Rule("R01.12", "for every call in the product packages whose error result is bound to a variable: (1) on every feasible path from the call to a return of the enclosing function the error is handed back by that return, or a branch on it (== nil, != nil, == io.EOF, a predicate or type assertion of it) or a call that receives it lies on the path; (2) if the function returns an error, no return of a definitely-nil error is reachable from the non-nil side of a nil test of the error without passing a further test of it, a call that receives it, or a WriteHeader (the handler answers itself). A result that is not bound at all is accepted only for Close / response writes / printing. Otherwise a failed step is acknowledged as success")
+	n := 0
+	for _, pk := range []string{"gofakes3", "s3mem", "s3bolt", "s3afero", "goskipiter", "s3io"} {
+		for _, fn := range r.P.FuncsOfPkg(pk) {
+			f := fn
+			fnRet := returnedErrors(f)
+			returnsErr := false
+			if res := f.Signature.Results(); res.Len() > 0 && core.IsErrorType(res.At(res.Len()-1).Type()) {
+				returnsErr = true
+			}
+			k0 := 0
+			core.Instrs(f, func(in ssa.Instruction) {
+				c, ok := in.(*ssa.Call)
+				if !ok {
+					return
+				}
+				res := c.Call.Signature().Results()
+				if res.Len() == 0 || !core.IsErrorType(res.At(res.Len()-1).Type()) {
+					return
+				}
+				name := r.P.CalleeName(c)
+				switch {
+				case strings.HasPrefix(name, "fmt."), strings.HasPrefix(name, "log."), strings.HasSuffix(name, "hash.Hash.Write"),
+					strings.HasPrefix(name, "(*bytes.Buffer)."), strings.HasPrefix(name, "(*strings.Builder)."):
+					return
+				}
+				errv := core.ErrorResult(c)
+				if errv != nil && core.NilnessAt(errv, nil) == core.NonNil {
+					return // a constructor of an error value, not a step that can fail
+				}
+				n++
+				k0++
+				k := key(fname(r, f), "error of "+name, sprintf("#%d", k0))
+				if errv == nil || errv.Referrers() == nil || len(*errv.Referrers()) == 0 {
+					why := ""
+					switch {
+					case strings.HasSuffix(name, ".Close"):
+						why = "Close (deferred cleanup, already-failing path, or a handle whose contents were delivered)"
+					case strings.Contains(name, "http.ResponseWriter.Write"), strings.HasPrefix(name, "io.WriteString"), strings.Contains(name, "Encoder).Encode"), strings.Contains(name, "Encoder).Flush"):
+						why = "write of the response: the status line is out, nothing is left to report to"
+					case strings.HasPrefix(name, "time.Parse"), strings.HasPrefix(name, "(*time.Location)"):
+						why = "parsed value used only if non-zero"
+					}
+					if why != "" {
+						r.Held("R01.12", k, pos(r, in), "accepted: "+why)
+						return
+					}
+					r.Violated("R01.12", k, pos(r, in), "the error returned by "+name+" is not bound to anything: a failed step is acknowledged as success")
+					return
+				}
+				al := core.ValueAliases(errv)
+				// everything derived from the error by boxing / merging
+				derived := map[ssa.Value]bool{}
+				var grow func(v ssa.Value, d int)
+				grow = func(v ssa.Value, d int) {
+					if derived[v] || d > 4 {
+						return
+					}
+					derived[v] = true
+					if refs := v.Referrers(); refs != nil {
+						for _, u := range *refs {
+							switch x := u.(type) {
+							case *ssa.MakeInterface, *ssa.ChangeInterface, *ssa.Phi, *ssa.TypeAssert, *ssa.Extract:
+								grow(x.(ssa.Value), d+1)
+							}
+						}
+					}
+				}
+				for a := range al {
+					grow(a, 0)
+				}
+				involves := func(v ssa.Value) bool {
+					if v == nil {
+						return false
+					}
+					sl := r.P.SliceOf(v, core.SliceOpts{Depth: -1})
+					for a := range derived {
+						if sl.HasValue(a) {
+							return true
+						}
+					}
+					return false
+				}
+				tests := map[ssa.Instruction]bool{}
+				uses := map[ssa.Instruction]bool{}
+				core.Instrs(f, func(x ssa.Instruction) {
+					switch y := x.(type) {
+					case *ssa.If:
+						if involves(y.Cond) {
+							tests[x] = true
+						}
+					case ssa.CallInstruction:
+						if x == ssa.Instruction(c) {
+							return
+						}
+						for _, a := range y.Common().Args {
+							if derived[a] || packsAny(a, derived) {
+								uses[x] = true
+							}
+						}
+						if strings.HasSuffix(r.P.CalleeName(y), "http.ResponseWriter.WriteHeader") {
+							uses[x] = true
+						}
+					case *ssa.Store:
+						if derived[y.Val] {
+							if _, local := y.Addr.(*ssa.Alloc); !local {
+								uses[x] = true
+							}
+						}
+					case *ssa.Panic:
+						if derived[y.X] {
+							uses[x] = true
+						}
+					}
+				})
+				propagates := func(ret *ssa.Return) bool {
+					if ev, ok := fnRet[ret]; ok && ev != nil {
+						return involves(ev)
+					}
+					// any result carrying it (a struct with an Err field, a result tuple)
+					for _, rv := range ret.Results {
+						if derived[rv] {
+							return true
+						}
+					}
+					return false
+				}
+				bad := ""
+				for _, ret := range core.Returns(f) {
+					if !core.Reaches(c, ret) || propagates(ret) {
+						continue
+					}
+					if ev := fnRet[ret]; ev != nil && core.NilnessAt(core.BlockLocalLoad(ev), ret.Block()) == core.NonNil {
+						continue // another failure is reported on this path
+					}
+					if core.ReachesAvoiding(c, ret, func(x ssa.Instruction) bool { return tests[x] || uses[x] }) {
+						bad = "reaches the return at " + pos(r, ret) + " without having been tested, handed back or passed on"
+						continue
+					}
+					if !returnsErr || verdictCalls[name] || probeCalls[name] {
+						continue
+					}
+					ev := fnRet[ret]
+					if ev == nil || !definitelyNil(r, core.BlockLocalLoad(ev)) {
+						continue
+					}
+					for t := range tests {
+						iff := t.(*ssa.If)
+						nonNil := -1
+						for a := range al {
+							if isNil, ok := core.ErrNilFact(core.Guard{If: iff, Branch: true}, a); ok {
+								if isNil {
+									nonNil = 1
+								} else {
+									nonNil = 0
+								}
+							}
+						}
+						if nonNil < 0 || len(iff.Block().Succs) != 2 || !core.Reaches(c, iff) {
+							continue
+						}
+						start := iff.Block().Succs[nonNil]
+						if len(start.Instrs) == 0 {
+							continue
+						}
+						first := start.Instrs[0]
+						avoid := func(x ssa.Instruction) bool { return x != t && (tests[x] || uses[x]) }
+						if avoid(first) {
+							continue
+						}
+						if first == ssa.Instruction(ret) || core.ReachesAvoiding(first, ret, avoid) {
+							// the non-nil side must not be the nil side as well (a test whose arms rejoin at once is caught here too)
+							bad = "was found non-nil at " + pos(r, iff) + " and the function still returns success at " + pos(r, ret)
+						}
+					}
+				}
+				r.Check(bad == "", "R01.12", k, pos(r, in), "handed back, tested or passed on on every path; never swallowed", "the error returned by "+name+" "+bad+": a failed step is acknowledged as success")
+			})
+		}
+	}
+	r.Floor("R01.12", 150, "calls returning an error in the product packages")
+	_ = prop
+}
+
+// verdictCalls are pure validators: their error is a verdict ("not a valid
+// name"), and answering "absent" / "empty" is what handling it means.
+var verdictCalls = map[string]bool{"gofakes3.ValidateBucketName": true, "s3afero.checkObjectName": true}
+
+// probeCalls are queries: an error means "not there", and going on without the
+// thing is the handling (only what is done when it IS there matters).
+var probeCalls = map[string]bool{
+	"invoke:github.com/spf13/afero.Fs.Stat": true, "github.com/spf13/afero.Exists": true, "github.com/spf13/afero.DirExists": true,
+	"github.com/spf13/afero.IsDir": true, "os.Stat": true, "invoke:github.com/spf13/afero.File.Stat": true,
+}
+
+// packsAny: v is a variadic pack one of whose elements is in set.
+func packsAny(v ssa.Value, set map[ssa.Value]bool) bool {
+	for _, e := range packedElems(v) {
+		if set[e] {
+			return true
+		}
+		if mi, ok := e.(*ssa.MakeInterface); ok && set[mi.X] {
+			return true
+		}
+	}
+	return false
 }
